@@ -169,7 +169,7 @@ def check_constructors(ctx):
                 ctx.violation("C01-b", loop, "Sequence.__init__ drops an argument on path [%s] (nothing appended): the element would be "
                               "missing from the composition" % p.describe(), construct="dropped:" + p.describe(), path=p)
                 continue
-            arg = apps[0].args[0]
+            arg = K.value_on_path(p, apps[0].args[0], stop=(el,))
             lits = p.literal_srcs()
             guarded = "hasattr(%s, 'run')" % el in lits and "callable(%s.run)" % el in lits
             if A.src(arg) == el:
@@ -177,10 +177,7 @@ def check_constructors(ctx):
                           "not checked to have a callable run [%s]: the error would surface during the run, not at construction" % p.describe(),
                           detail="raw element stored only under hasattr(el,'run') and callable(el.run)", path=p)
             else:
-                conv = None
-                for e in p.ev:
-                    if e[0] == "stmt" and isinstance(e[1], ast.Assign) and any(A.src(t) == A.src(arg) for t in e[1].targets):
-                        conv = e[1].value
+                conv = arg
                 ok = isinstance(conv, ast.Call) and res.canon(conv.func) == "lena.core.adapters.Run" and len(conv.args) == 1 and A.src(conv.args[0]) == el
                 ctx.check("C01-b", ok and len(apps) == 1, apps[0], "Sequence.__init__ stores `%s`, which is neither the checked element nor "
                           "adapters.Run(%s)" % (A.src(arg), el), detail="converted element is adapters.Run(el)", path=p)
